@@ -327,6 +327,16 @@ impl Drop for Cqueue {
     }
 }
 
+#[cfg(may_verif)]
+struct VerifDropped(usize);
+
+#[cfg(may_verif)]
+impl Drop for VerifDropped {
+    fn drop(&mut self) {
+        crate::verif::label("cqueue.dropped", self.0);
+    }
+}
+
 /// Create a new `scope`, for select coroutines.
 ///
 /// Scopes, in particular, support scoped select coroutine spawning.
@@ -335,6 +345,9 @@ pub fn scope<'a, F, R>(f: F) -> R
 where
     F: FnOnce(&Cqueue) -> R + 'a,
 {
+    // declared first, so that it is dropped after the cqueue
+    #[cfg(may_verif)]
+    let mut _dropped = VerifDropped(0);
     let cqueue = Cqueue {
         ev_queue: Queue::new(),
         to_wake: AtomicOption::none(),
@@ -343,5 +356,12 @@ where
         total: AtomicUsize::new(0),
         is_panicking: AtomicBool::new(false),
     };
+    #[cfg(may_verif)]
+    {
+        // the cqueue lives on this stack frame: tell the engine where, so that it can recognise accesses after the drop
+        _dropped.0 = &cqueue as *const _ as usize;
+        crate::verif::label("cqueue.created", _dropped.0);
+        crate::verif::label("cqueue.size", std::mem::size_of::<Cqueue>());
+    }
     f(&cqueue)
 }
